@@ -97,3 +97,30 @@ Example C07_parse_path_code_nonvacuous :
   fn_parsePath gstate0 (s "a[-1]") = Ret (Err EOther) /\ fn_parsePath gstate0 (s "a[") = Ret (Err EOther) /\
   fn_parsePath gstate0 (s "k][1]") = Ret (Ok [mk_key (s "k]") true 1]).
 Proof. vm_compute. repeat split. Qed.
+
+(* the recursive walker itself: go2v's translation of func valuesForKeyPath (recursion on explicit fuel; the
+   out-parameters ret / cnt threaded as state; hasSubKeys an external call, instantiated with the model function that
+   GenProofs/PureG2.v proves equal to the translated hasSubKeys) IS the model walker [vfkp], for every fuel above the
+   length of the key list: the values are appended to ret in the model's order and cnt grows by their number *)
+From Mxj Require Import GenProofs.PureG3.
+
+Theorem C07_walker_code_is_model : forall keys fuel st ret cnt m sk,
+  length keys < fuel ->
+  fn_valuesForKeyPath has_sub_keys fuel st ret cnt m keys sk
+  = Ret (ret ++ vfkp keys sk m, (cnt + Z.of_nat (length (vfkp keys sk m)))%Z).
+Proof. exact vfkp_code_is_model. Qed.
+Print Assumptions C07_walker_code_is_model.
+
+(* with C07_walker_eval: the translated code computes the declarative path semantics *)
+Corollary C07_walker_code_eval : forall ks fuel st m,
+  length ks < fuel ->
+  fn_valuesForKeyPath has_sub_keys fuel st [] 0 m ks [] = Ret (eval ks m, Z.of_nat (length (eval ks m))).
+Proof. intros ks fuel st m H. rewrite vfkp_code_is_model by exact H. rewrite C07_walker_eval. reflexivity. Qed.
+Print Assumptions C07_walker_code_eval.
+
+Example C07_walker_code_nonvacuous :
+  fn_valuesForKeyPath has_sub_keys 5 gstate0 [] 0
+    (VMap [(s "doc", VMap [(s "items", VList [VMap [(s "k", VStr (s "1"))]; VStr (s "x"); VMap [(s "k", VList [VStr (s "2"); VStr (s "3")])]])])])
+    [s "doc"; s "items"; s "k"] []
+  = Ret ([VStr (s "1"); VStr (s "2"); VStr (s "3")], 3%Z).
+Proof. vm_compute. reflexivity. Qed.
